@@ -746,6 +746,8 @@ func (p *Program) kindOrdinal(site ssa.Instruction, kind string) int {
 				match = kind == "send"
 			case *ssa.Return:
 				match = kind == "return"
+			case *ssa.Go:
+				match = kind == "go"
 			}
 			if match {
 				list = append(list, ent{in, in.Pos()})
